@@ -5,7 +5,6 @@
 
 package types
 
-
 // DecryptSymmetricKey (C07 recipient binding, C09 totality, C11 dispatch)
 //@ pure func DigestAlg(ek *EncryptedKey) int {
 //@   return ek.EncryptionMethod.DigestMethod == nil ? 1
